@@ -14,3 +14,6 @@ import vf
 vf.Facts()
 print('facts ready for tree', vf.tree_hash())
 "
+# warm the dependency build of the cfg matrix (target dir under .work, ignored by git)
+./check C19 --tier quick > .work/setup_c19.log 2>&1 || true
+echo "setup done"
